@@ -225,9 +225,8 @@ ARGS_LOOP:
 						}
 						// The entry is complete here and has suggestions
 						if strings.Contains(partialOption, "=") && strings.HasPrefix(partialOption, k) {
-							lastOpt = v
-							if lastOpt.SuggestedValues != nil && len(lastOpt.SuggestedValues) > 0 {
-								for _, e := range lastOpt.SuggestedValues {
+							if v.SuggestedValues != nil && len(v.SuggestedValues) > 0 {
+								for _, e := range v.SuggestedValues {
 									c := fmt.Sprintf("--%s=%s", k, e)
 									if strings.HasPrefix(c, iterator.Value()) {
 										// NOTE: Bash completions have = as a special char and results should be trimmed form the = on.
@@ -241,8 +240,8 @@ ARGS_LOOP:
 								}
 							}
 							// The entry is complete here and has a suggestion function
-							if strings.Contains(partialOption, "=") && lastOpt.SuggestedValuesFn != nil {
-								for _, e := range lastOpt.SuggestedValuesFn(completionMode, strings.SplitN(iterator.Value(), "=", 2)[1]) {
+							if strings.Contains(partialOption, "=") && v.SuggestedValuesFn != nil {
+								for _, e := range v.SuggestedValuesFn(completionMode, strings.SplitN(iterator.Value(), "=", 2)[1]) {
 									c := fmt.Sprintf("--%s=%s", k, e)
 									if strings.HasPrefix(c, iterator.Value()) {
 										// NOTE: Bash completions have = as a special char and results should be trimmed form the = on.
@@ -263,7 +262,8 @@ ARGS_LOOP:
 					// extra completion so there is no trailing space automatically
 					// inserted by bash.
 					// This extra completion has nice documentation on what the option expects.
-					if len(completions) == 1 && strings.HasSuffix((completions)[0], "=") {
+					// Only when that completion is an option name: a suggested value that ends with `=` is not one.
+					if len(completions) == 1 && lastOpt != nil && strings.HasSuffix((completions)[0], "=") {
 						if lastOpt.SuggestedValues != nil && len(lastOpt.SuggestedValues) > 0 {
 							for _, e := range lastOpt.SuggestedValues {
 								completions = append(completions, completions[0]+e)
